@@ -1,0 +1,227 @@
+//go:build verif
+// +build verif
+
+// Add-only verification shim for property C18 (compression is transparent and only used as
+// negotiated).  Thin exported wrappers: a framer built by the real newFramer with a given
+// compressor, finish() on a given header/body, the real request builders, readHeader+readFrame on
+// given bytes, and a Conn dialled over a caller-supplied net.Conn so that the real startup
+// negotiation (conn.go startupCoordinator) runs against a scripted peer.
+package gocql
+
+import (
+	"context"
+	"io"
+	"net"
+	"time"
+)
+
+// request kinds of VerifC18Framer.Build / VerifC18Conn.Exec
+const (
+	VerifC18Startup = iota
+	VerifC18Options
+	VerifC18Prepare
+	VerifC18AuthResponse
+	VerifC18Query
+	VerifC18Execute
+	VerifC18Batch
+	VerifC18Register
+)
+
+// VerifC18MaxFrameSize re-exports the frame size limit used by finish and readFrame.
+const VerifC18MaxFrameSize = maxFrameSize
+
+type VerifC18Req struct {
+	Statement     string            // QUERY, PREPARE, BATCH (one statement)
+	Values        [][]byte          // QUERY, EXECUTE, BATCH
+	PreparedID    []byte            // EXECUTE
+	Opts          map[string]string // STARTUP
+	Events        []string          // REGISTER
+	Data          []byte            // AUTH_RESPONSE
+	CustomPayload map[string][]byte // PREPARE, QUERY, EXECUTE, BATCH (protocol 4+)
+	PageSize      int
+}
+
+func (r *VerifC18Req) builder(kind int) frameBuilder {
+	var vals []queryValues
+	for _, v := range r.Values {
+		vals = append(vals, queryValues{value: v})
+	}
+	params := queryParams{consistency: Quorum, values: vals, pageSize: r.PageSize}
+	switch kind {
+	case VerifC18Startup:
+		return &writeStartupFrame{opts: r.Opts}
+	case VerifC18Options:
+		return &writeOptionsFrame{}
+	case VerifC18Prepare:
+		return &writePrepareFrame{statement: r.Statement, customPayload: r.CustomPayload}
+	case VerifC18AuthResponse:
+		return &writeAuthResponseFrame{data: r.Data}
+	case VerifC18Query:
+		return &writeQueryFrame{statement: r.Statement, params: params, customPayload: r.CustomPayload}
+	case VerifC18Execute:
+		return &writeExecuteFrame{preparedID: r.PreparedID, params: params, customPayload: r.CustomPayload}
+	case VerifC18Batch:
+		return &writeBatchFrame{typ: LoggedBatch, consistency: Quorum, customPayload: r.CustomPayload,
+			statements: []batchStatment{{statement: r.Statement, values: vals}}}
+	case VerifC18Register:
+		return &writeRegisterFrame{events: r.Events}
+	}
+	return nil
+}
+
+type VerifC18Framer struct{ f *framer }
+
+// VerifC18NewFramer is newFramer.
+func VerifC18NewFramer(comp Compressor, version byte) *VerifC18Framer {
+	return &VerifC18Framer{f: newFramer(comp, version)}
+}
+
+func (v *VerifC18Framer) Info() (proto, flags byte, headSize int, hasCompressor bool) {
+	return v.f.proto, v.f.flags, v.f.headSize, v.f.compres != nil
+}
+func (v *VerifC18Framer) Trace()   { v.f.trace() }
+func (v *VerifC18Framer) Payload() { v.f.payload() }
+
+func verifC18Copy(b []byte) []byte {
+	out := make([]byte, len(b))
+	copy(out, b)
+	return out
+}
+
+// FinishRaw: writeHeader(flags, op, stream); buf = append(buf, body...); finish().
+// Returns the framer's buffer, finish's error and the recovered panic value (nil if none).
+// With keep=false the buffer is not copied out (used for very large bodies); its length is returned.
+func (v *VerifC18Framer) FinishRaw(flags, op byte, stream int, body []byte, keep bool) (out []byte, n int, err error, panicked interface{}) {
+	defer func() {
+		if r := recover(); r != nil {
+			panicked = r
+		}
+	}()
+	v.f.writeHeader(flags, frameOp(op), stream)
+	v.f.buf = append(v.f.buf, body...)
+	err = v.f.finish()
+	n = len(v.f.buf)
+	if keep {
+		out = verifC18Copy(v.f.buf)
+	}
+	return
+}
+
+// Build runs the real request builder of the given kind on this framer.
+func (v *VerifC18Framer) Build(kind int, stream int, req *VerifC18Req) (out []byte, err error, panicked interface{}) {
+	defer func() {
+		if r := recover(); r != nil {
+			panicked = r
+		}
+	}()
+	err = req.builder(kind).buildFrame(v.f, stream)
+	out = verifC18Copy(v.f.buf)
+	return
+}
+
+type VerifC18Header struct {
+	Version byte
+	Flags   byte
+	Stream  int
+	Op      byte
+	Length  int
+}
+
+// ReadHeader is readHeader on r.
+func VerifC18ReadHeader(r io.Reader) (h VerifC18Header, err error) {
+	var p [maxFrameHeaderSize]byte
+	head, err := readHeader(r, p[:])
+	if err != nil {
+		return h, err
+	}
+	return VerifC18Header{byte(head.version), head.flags, head.stream, byte(head.op), head.length}, nil
+}
+
+// ReadFrame is framer.readFrame(r, head); returns the framer's body buffer afterwards.
+func (v *VerifC18Framer) ReadFrame(r io.Reader, h VerifC18Header) (body []byte, err error, panicked interface{}) {
+	defer func() {
+		if r := recover(); r != nil {
+			panicked = r
+		}
+	}()
+	head := &frameHeader{version: protoVersion(h.Version), flags: h.Flags, stream: h.Stream, op: frameOp(h.Op), length: h.Length}
+	err = v.f.readFrame(r, head)
+	if err == nil {
+		body = verifC18Copy(v.f.buf)
+	}
+	return
+}
+
+// ---- a real Conn over a caller-supplied net.Conn ---------------------------------------------
+
+type verifC18Dialer struct{ nc net.Conn }
+
+func (d verifC18Dialer) DialHost(ctx context.Context, host *HostInfo) (*DialedHost, error) {
+	return &DialedHost{Conn: d.nc, DisableCoalesce: true}, nil
+}
+
+type verifC18Logger struct{}
+
+func (verifC18Logger) Print(v ...interface{})                 {}
+func (verifC18Logger) Printf(format string, v ...interface{}) {}
+func (verifC18Logger) Println(v ...interface{})               {}
+
+type verifC18Tracer struct{}
+
+func (verifC18Tracer) Trace(traceId []byte) {}
+
+type VerifC18Conn struct {
+	c *Conn
+}
+
+// VerifC18Dial runs Session.dialWithoutObserver (and so Conn.init and the whole startup
+// coordinator: OPTIONS, SUPPORTED, negotiation, STARTUP, optional authentication) over nc.
+func VerifC18Dial(nc net.Conn, comp Compressor, proto int, auth Authenticator, timeout time.Duration) (*VerifC18Conn, error) {
+	s := &Session{logger: verifC18Logger{}}
+	s.cfg.Logger = s.logger
+	cfg := &ConnConfig{
+		ProtoVersion:    proto,
+		CQLVersion:      "3.0.0",
+		Timeout:         timeout,
+		ConnectTimeout:  timeout,
+		HostDialer:      verifC18Dialer{nc},
+		Compressor:      comp,
+		Authenticator:   auth,
+		Logger:          s.logger,
+		disableCoalesce: true,
+	}
+	host := &HostInfo{connectAddress: net.IPv4(127, 0, 0, 1), port: 9042}
+	c, err := s.dialWithoutObserver(context.Background(), host, cfg, connErrorHandlerFn(func(*Conn, error, bool) {}))
+	if err != nil {
+		return nil, err
+	}
+	return &VerifC18Conn{c: c}, nil
+}
+
+// CompressorName is the name of Conn.compressor after startup, "" if it is nil.
+func (v *VerifC18Conn) CompressorName() string {
+	if v.c.compressor == nil {
+		return ""
+	}
+	return v.c.compressor.Name()
+}
+
+// Exec is Conn.exec followed by parseFrame.  Returns the response opcode, the (decompressed) body
+// the framer held before parsing, and the error of exec or parseFrame.
+func (v *VerifC18Conn) Exec(kind int, req *VerifC18Req, trace bool) (op int, body []byte, err error) {
+	var tr Tracer
+	if trace {
+		tr = verifC18Tracer{}
+	}
+	fr, err := v.c.exec(context.Background(), req.builder(kind), tr)
+	if err != nil {
+		return -1, nil, err
+	}
+	op = int(fr.header.op)
+	body = verifC18Copy(fr.buf)
+	_, err = fr.parseFrame()
+	return op, body, err
+}
+
+func (v *VerifC18Conn) Closed() bool { return v.c.Closed() }
+func (v *VerifC18Conn) Close()       { v.c.Close() }
